@@ -169,6 +169,7 @@ package shellfuncsfile
 //@   on enter slices.DeleteFunc(x, f): assert(flushed && x == lines && nDel == 0 && nSort == 0, "empty_pieces_removed"); nDel++
 //@   on enter slices.Sort(x): assert(x == lines && nDel == 1 && nSort == 0, "rows_sorted"); nSort++
 //@   on enter slices.Compact(x): assert(x == lines && nSort == 1 && nCompact == 0, "duplicate_rows_removed"); nCompact++
+//@   on enter template.Template.Execute(t, w, data): assert(fresh(w), "listing_is_built_in_a_buffer_of_its_own_call")
 //@   on enter template.Template.Execute(t, w, data): assert(t == funcListTemplate && nDel == 1 && nSort == 1 && nCompact == 1 && boxes(data, lines) && forall(j, 0 <= j && j < len(lines), lines[j] == strings.ReplaceAll(pre("2", lines[j]), "'", "'\\''")), "every_row_is_escaped_after_sorting_and_deduplication"); nExec++
 //@   loop 1
 //@     invariant every_line_of_the_payload_is_examined: nSplit == 1 && ranged("1") == pieces
